@@ -141,6 +141,10 @@ def cases(seed, tier):
             sus["post_plan_form"] = rng.choice(["list", "fn"])
         case["suspenders"]["s0"] = sus
         case["script"].append({"do": "install_suspender", "sus": "s0"})
+    if rng.random() < 0.2:
+        # an earlier call on the same engine that ended with its checkpoint cleared: the next call starts afresh
+        S = pg.S
+        case["script"].append({"do": "call", "plan": [msg(S, "checkpoint"), msg(S, "null"), msg(S, "clear_checkpoint"), msg(S, "null")], "tag": "prelude"})
     case["script"].append({"do": "call", "plan": body, "main": True})
     dry, dv, n = generic.dry_run(case)
     yield case
@@ -190,7 +194,27 @@ def model_check(events):
         if cache is not None:
             cache = []
 
+    asked = None  # an interruption was accepted while, by the model, a checkpoint existed (the plan is resumable)
     for e in events:
+        # ---- there is something to resume from exactly when the model says so: an interruption accepted in a
+        # resumable section pauses / suspends, it does not abort the plan ("No checkpoint")
+        if e.kind == "inject_begin" and e.d["do"] in ("pause", "trip") and e.d.get("state") == "running":
+            if cache is not None and asked is None:
+                asked = e.d["do"]
+            continue
+        if e.kind == "inject_end" and e.d["do"] in ("pause", "trip"):
+            if e.d["outcome"] != "ok":
+                asked = None  # the request was refused
+            continue
+        if e.kind == "call_begin" and e.d["api"] in ("abort", "stop", "halt"):
+            asked = None  # the user's own decision ends the plan
+        if e.kind == "state":
+            if e.d["new"] in ("paused", "suspending", "idle") or e.d["old"] == "suspending":
+                asked = None
+            elif e.d["new"] == "aborting" and asked is not None:
+                out.append(V("interruption-in-resumable-section-aborted", f"a {asked} request was accepted after a checkpoint (nothing cleared it since) but the engine aborted the plan instead of holding it", kind=asked))
+                asked = None
+            continue
         if e.kind == "call_begin" and e.d["api"] == "resume":
             seg = list(cache or [])
             if cache is not None:
@@ -294,6 +318,7 @@ def model_check(events):
             reset()
         elif cmd == "clear_checkpoint":
             cache = None
+            asked = None  # a request still on its way to the loop may legitimately meet the cleared checkpoint
         elif cmd == "rewindable":
             flag = e.d["args"][0] if e.d["args"] else None
             if flag is not None:
